@@ -34,6 +34,9 @@ type wFile struct {
 	Name string `json:"name"`
 	C    int    `json:"c"`
 	K    int    `json:"k"`
+	// chain variant of the certificate in this file (certs.go): 0 = the leaf alone, v = followed by intermediate v-1.
+	// It changes the bytes of the file (and what is presented), not which key fits.
+	Ch int `json:"ch"`
 }
 
 type wMat struct {
@@ -63,14 +66,16 @@ const spinSlack = 64
 func fileBytes(f wFile) ([]byte, error) {
 	var b bytes.Buffer
 	if f.C >= 0 {
-		if f.C >= nKeys {
+		if f.C >= nKeys || f.Ch < 0 || f.Ch > nChains {
 			return nil, fmt.Errorf("certificate id out of range")
 		}
 		l, err := leaf(f.C, "c"+strconv.Itoa(f.C)+".test", nil)
 		if err != nil {
 			return nil, err
 		}
-		b.Write(certPEM(l))
+		for _, der := range withChain(l, f.Ch).Certificate {
+			b.Write(certPEM(tls.Certificate{Certificate: [][]byte{der}}))
+		}
 	}
 	if f.K >= 0 {
 		if f.K >= nKeys {
@@ -126,6 +131,12 @@ func certIDs(cs []tls.Certificate) []int {
 				if strings.HasPrefix(cn, "c") && strings.HasSuffix(cn, ".test") {
 					if n, err := strconv.Atoi(cn[1 : len(cn)-5]); err == nil {
 						id = n
+						// what follows the leaf is part of the certificate's identity
+						if v := chainOf(c.Certificate); v > 0 {
+							id += 10 * v
+						} else if v < 0 {
+							id = -3
+						}
 					}
 				}
 			}
@@ -365,10 +376,14 @@ func genGoodFiles(r *hx.Rand, n int) []wFile {
 		}
 		used[base] = true
 		c := r.Intn(nKeys)
+		ch := 0
+		if r.Chance(1, 4) {
+			ch = r.Range(1, nChains)
+		}
 		if r.Chance(1, 2) {
-			fs = append(fs, wFile{base + "-cert.pem", c, -1}, wFile{base + "-key.pem", -1, c})
+			fs = append(fs, wFile{base + "-cert.pem", c, -1, ch}, wFile{base + "-key.pem", -1, c, 0})
 		} else {
-			fs = append(fs, wFile{base + ".pem", c, c})
+			fs = append(fs, wFile{base + ".pem", c, c, ch})
 		}
 	}
 	return fs
@@ -380,11 +395,11 @@ func genMat(r *hx.Rand, good bool) wMat {
 		case x == 0:
 			return wMat{Files: []wFile{}}
 		case x == 1:
-			return wMat{Files: []wFile{{"readme.txt", -1, -1}}}
+			return wMat{Files: []wFile{{"readme.txt", -1, -1, 0}}}
 		}
 		fs := genGoodFiles(r, r.Range(1, 4))
 		if r.Chance(1, 6) {
-			fs = append(fs, wFile{"notes.txt", -1, -1})
+			fs = append(fs, wFile{"notes.txt", -1, -1, 0})
 		}
 		shuffleFiles(r, fs)
 		return wMat{Files: fs}
@@ -392,17 +407,17 @@ func genMat(r *hx.Rand, good bool) wMat {
 	fs := genGoodFiles(r, r.Intn(3))
 	switch r.Intn(6) {
 	case 0: // garbage instead of the key
-		fs = append(fs, wFile{"q-cert.pem", 1, -1}, wFile{"q-key.pem", -1, -1})
+		fs = append(fs, wFile{"q-cert.pem", 1, -1, 0}, wFile{"q-key.pem", -1, -1, 0})
 	case 1: // key of another certificate
-		fs = append(fs, wFile{"q-cert.pem", 1, -1}, wFile{"q-key.pem", -1, 2})
+		fs = append(fs, wFile{"q-cert.pem", 1, -1, 0}, wFile{"q-key.pem", -1, 2, 0})
 	case 2: // key file missing
-		fs = append(fs, wFile{"q-cert.pem", 1, -1})
+		fs = append(fs, wFile{"q-cert.pem", 1, -1, 0})
 	case 3: // certificate file missing
-		fs = append(fs, wFile{"q-key.pem", -1, 1})
+		fs = append(fs, wFile{"q-key.pem", -1, 1, 0})
 	case 4: // single file without a key
-		fs = append(fs, wFile{"q.pem", 2, -1})
+		fs = append(fs, wFile{"q.pem", 2, -1, 0})
 	default: // single file that is not PEM
-		fs = append(fs, wFile{"q.pem", -1, -1})
+		fs = append(fs, wFile{"q.pem", -1, -1, 0})
 	}
 	shuffleFiles(r, fs)
 	return wMat{Files: fs}
@@ -422,15 +437,34 @@ func genWatchIn(r *hx.Rand, maxLen int) watchIn {
 			src := in.Mats[goodIdx[r.Intn(len(goodIdx))]]
 			if !src.Nil && len(src.Files) > 0 {
 				d := r.Range(1, nKeys-1)
+				chainOnly := r.Chance(1, 2) // the same leaves and keys, other certificates after the leaf
 				ren := wMat{}
-				for _, f := range src.Files {
-					if f.C >= 0 {
-						f.C = (f.C + d) % nKeys
+				for changed := false; !changed; {
+					ren.Files = nil
+					for _, f := range src.Files {
+						if chainOnly {
+							if f.C >= 0 && r.Chance(2, 3) {
+								f.Ch = (f.Ch + r.Range(1, nChains)) % (nChains + 1)
+								changed = true
+							}
+						} else {
+							changed = true
+							if f.C >= 0 {
+								f.C = (f.C + d) % nKeys
+							}
+							if f.K >= 0 {
+								f.K = (f.K + d) % nKeys
+							}
+						}
+						ren.Files = append(ren.Files, f)
 					}
-					if f.K >= 0 {
-						f.K = (f.K + d) % nKeys
+					hasCert := false
+					for _, f := range src.Files {
+						hasCert = hasCert || f.C >= 0
 					}
-					ren.Files = append(ren.Files, f)
+					if !hasCert {
+						break
+					}
 				}
 				in.Mats = append(in.Mats, ren)
 				goodIdx = append(goodIdx, i)
@@ -465,10 +499,10 @@ func genWatchIn(r *hx.Rand, maxLen int) watchIn {
 }
 
 func init() {
-	g1 := wMat{Files: []wFile{{"a-cert.pem", 0, -1}, {"a-key.pem", -1, 0}}}
-	g2 := wMat{Files: []wFile{{"z.pem", 1, 1}, {"a-cert.pem", 0, -1}, {"a-key.pem", -1, 0}, {"B.pem", 2, 2}}}
-	bad := wMat{Files: []wFile{{"a-cert.pem", 0, -1}, {"a-key.pem", -1, -1}}}
-	partly := wMat{Files: []wFile{{"a-cert.pem", 0, -1}, {"a-key.pem", -1, 0}, {"b-cert.pem", 1, -1}, {"b-key.pem", -1, 2}}}
+	g1 := wMat{Files: []wFile{{"a-cert.pem", 0, -1, 0}, {"a-key.pem", -1, 0, 0}}}
+	g2 := wMat{Files: []wFile{{"z.pem", 1, 1, 0}, {"a-cert.pem", 0, -1, 0}, {"a-key.pem", -1, 0, 0}, {"B.pem", 2, 2, 0}}}
+	bad := wMat{Files: []wFile{{"a-cert.pem", 0, -1, 0}, {"a-key.pem", -1, -1, 0}}}
+	partly := wMat{Files: []wFile{{"a-cert.pem", 0, -1, 0}, {"a-key.pem", -1, 0, 0}, {"b-cert.pem", 1, -1, 0}, {"b-key.pem", -1, 2, 0}}}
 	empty := wMat{Files: []wFile{}}
 	hx.Register(&hx.Stream{
 		Name: "c11.watch",
